@@ -95,7 +95,8 @@ class RdfBuilder:
         if k < 0.42:
             return Literal(r.choice(STR), langtag=r.choice(["en", "fr", "en-GB", "zh-Hant", "pt-BR"]))
         if k < 0.55:
-            return r.randint(-100, 100)
+            return r.choice([r.randint(-100, 100), r.randint(-100, 100), 0, 2 ** 31, -2 ** 31 - 1, 2 ** 40, 2 ** 63 - 1, 2 ** 63 + 11,
+                             -2 ** 63 - 5, 10 ** 30])
         if k < 0.65:
             return r.choice([True, False])
         if k < 0.75:
